@@ -11,7 +11,12 @@
    Requests are actors `r : nat`; the state of an actor says where its request is.
    The clock is explicit (`p_now`, advanced by OTick); utils.NextSimpleId is an input (`fresh`).
    Ghost state: per cursor the number of close() calls and of releases of its partitions, the
-   net acquisition count per partition at the ItFactory, the actor table. *)
+   net acquisition count per partition at the ItFactory, the actor table.
+
+   Two repairs of provider.go are visible as the `variant` the step function takes: `code_variant` is
+   the code as it is (GetOrCreate refuses to insert under an id that got cached meanwhile, Release
+   leaves a cache entry that belongs to another cursor alone, Shutdown evicts the cache);
+   `old_variant` is the code before them (kept for the refutations in props/C15.v). *)
 From LR Require Export lib.Base model.CList.
 
 (* ---- cursor.State.Pos, abstracted: "" | "tail" | a well-formed position | anything else ---- *)
@@ -72,6 +77,8 @@ Definition set_rs s v := {| p_rs := v; p_vals := p_vals s; p_curs := p_curs s; p
 Definition set_vals s v := {| p_rs := p_rs s; p_vals := v; p_curs := p_curs s; p_max := p_max s; p_idle := p_idle s;
   p_busyto := p_busyto s; p_now := p_now s; p_cur := p_cur s; p_ncur := p_ncur s; p_acq := p_acq s; p_act := p_act s |}.
 Definition set_curs s v := {| p_rs := p_rs s; p_vals := p_vals s; p_curs := v; p_max := p_max s; p_idle := p_idle s;
+  p_busyto := p_busyto s; p_now := p_now s; p_cur := p_cur s; p_ncur := p_ncur s; p_acq := p_acq s; p_act := p_act s |}.
+Definition set_max s v := {| p_rs := p_rs s; p_vals := p_vals s; p_curs := p_curs s; p_max := v; p_idle := p_idle s;
   p_busyto := p_busyto s; p_now := p_now s; p_cur := p_cur s; p_ncur := p_ncur s; p_acq := p_acq s; p_act := p_act s |}.
 Definition set_now s v := {| p_rs := p_rs s; p_vals := p_vals s; p_curs := p_curs s; p_max := p_max s; p_idle := p_idle s;
   p_busyto := p_busyto s; p_now := v; p_cur := p_cur s; p_ncur := p_ncur s; p_acq := p_acq s; p_act := p_act s |}.
@@ -151,6 +158,7 @@ Inductive res :=
 | RHit (c : nat) | RRefused | RMiss
 | RNew (c : nat) | RNewErr | REmpty
 | RInserted
+| RInsRefused    (* the id got cached while the cursor was being created: the new cursor is closed, the request refused *)
 | RReleased (id : N) (p : pos)
 | RDone          (* use, sweeps, tick, shutdown *)
 | RNone.         (* the op is not enabled for this actor: nothing happens *)
@@ -165,6 +173,15 @@ Inductive op :=
 | OSweepTime
 | OTick (d : Z)
 | OShutdown.
+
+(* ---- which provider.go: the code as it is, or the code before the two C15 repairs ---- *)
+Record variant := {
+  v_owner : bool;    (* GetOrCreate's insert region refuses if p.curs[id] exists by now; Release treats a cache entry
+                        whose holder carries another cursor as "not in the cache" (provider.go, fix C15-sameid-race) *)
+  v_evict : bool     (* Shutdown evicts the whole cache with sweepBySize (fix C15-shutdown-close) *)
+}.
+Definition code_variant : variant := {| v_owner := true; v_evict := true |}.
+Definition old_variant : variant := {| v_owner := false; v_evict := false |}.
 
 (* ---- the ring statements of provider.go, on the ring store ---- *)
 (* p.busy = p.busy.TearOff(e); p.busy = e.Append(p.busy) *)
@@ -254,15 +271,20 @@ Definition get_create (s : prov) (r : nat) : outcome (prov * res) :=
   | _ => Ok (s, RNone)
   end.
 
-(* GetOrCreate, second locked region (provider.go:135-151) *)
-Definition get_insert (s : prov) (r : nat) : outcome (prov * res) :=
+(* GetOrCreate, second locked region. With `own`: if p.curs[cur.Id()] exists by now (another request with
+   the id has inserted while this one was in newCursor) the new cursor is closed and the request refused *)
+Definition get_insert (own : bool) (s : prov) (r : nat) : outcome (prov * res) :=
   match act_get (p_act s) r with
   | ACreated c =>
-    let '(e, rs1) := rs_take (p_rs s) in
-    let s1 := set_val (set_rs s rs1) e {| h_busy := true; h_cur := Some c; h_exp := p_now s + p_busyto s |} in
-    let s2 := set_rs s1 (rs_push_busy (p_rs s1) e) in
-    let s3 := set_curs s2 (map_set (p_curs s2) (c_id (p_cur s2 c)) e) in
-    Ok (set_actor s3 r (AHold c), RInserted)
+    match (if own then map_get (p_curs s) (c_id (p_cur s c)) else None) with
+    | Some _ => Ok (set_actor (close_cur s c) r AIdle, RInsRefused)
+    | None =>
+      let '(e, rs1) := rs_take (p_rs s) in
+      let s1 := set_val (set_rs s rs1) e {| h_busy := true; h_cur := Some c; h_exp := p_now s + p_busyto s |} in
+      let s2 := set_rs s1 (rs_push_busy (p_rs s1) e) in
+      let s3 := set_curs s2 (map_set (p_curs s2) (c_id (p_cur s2 c)) e) in
+      Ok (set_actor s3 r (AHold c), RInserted)
+    end
   | _ => Ok (s, RNone)
   end.
 
@@ -276,17 +298,23 @@ Definition use (s : prov) (r : nat) (k : N) : outcome (prov * res) :=
   | _ => Ok (s, RNone)
   end.
 
-(* Release (provider.go:156-184) *)
-Definition release (s : prov) (r : nat) : outcome (prov * res) :=
+(* Release. With `own`: a cache entry whose holder carries another cursor than the released one (this one
+   was never cached, or the sweeper dropped it while it was busy and the id was cached again) counts as
+   "not in the cache": the released cursor is closed, the entry is not touched *)
+Definition owned (own : bool) (s : prov) (c : nat) (e : nat) : bool :=
+  if own then match h_cur (p_vals s e) with Some c' => Nat.eqb c' c | None => false end else true.
+Definition release (own : bool) (s : prov) (r : nat) : outcome (prov * res) :=
   match act_get (p_act s) r with
   | AHoldEmpty => Ok (set_actor s r AIdle, RReleased 0 PHead)
   | AHold c =>
     let cu := commit (p_cur s c) in
     let s1 := set_cursor s c cu in
+    let closed := Ok (set_actor (close_cur s1 c) r AIdle, RReleased 0 (c_spos cu)) in
     match map_get (p_curs s1) (c_id cu) with
-    | None => Ok (set_actor (close_cur s1 c) r AIdle, RReleased 0 (c_spos cu))
+    | None => closed
     | Some e =>
-      if negb (h_busy (p_vals s1 e)) then Panic             (* "releasing cursor, which is not busy" *)
+      if negb (owned own s1 c e) then closed
+      else if negb (h_busy (p_vals s1 e)) then Panic        (* "releasing cursor, which is not busy" *)
       else Ok (set_actor (touch s1 e false (p_now s1 + p_idle s1)) r AIdle, RReleased (c_id cu) (c_spos cu))
     end
   | _ => Ok (s, RNone)
@@ -351,17 +379,27 @@ Definition sweep_time (s : prov) : outcome prov :=
 Definition lift (o : outcome prov) : outcome (prov * res) :=
   match o with Ok s => Ok (s, RDone) | Err => Err | Panic => Panic | OutOfFuel => OutOfFuel end.
 
-Definition step (s : prov) (o : op) : outcome (prov * res) :=
+(* Shutdown: close(clsdCh) stops the sweeper; with `ev` the whole cache is then evicted under p.lock:
+   mc := p.maxCurs; p.maxCurs = 0; p.sweepBySize(); p.maxCurs = mc *)
+Definition shutdown (ev : bool) (s : prov) : outcome prov :=
+  if ev then
+    match sweep_size (set_max s 0) with
+    | Ok s' => Ok (set_max s' (p_max s))
+    | o => o
+    end
+  else Ok s.
+
+Definition step (v : variant) (s : prov) (o : op) : outcome (prov * res) :=
   match o with
   | OLookup r id cache q qr p fresh => get_lookup s r id cache q qr p fresh
   | OCreate r => get_create s r
-  | OInsert r => get_insert s r
+  | OInsert r => get_insert (v_owner v) s r
   | OUse r k => use s r k
-  | ORelease r => release s r
+  | ORelease r => release (v_owner v) s r
   | OSweepSize => lift (sweep_size s)
   | OSweepTime => lift (sweep_time s)
   | OTick d => Ok (set_now s (p_now s + d), RDone)
-  | OShutdown => Ok (s, RDone)          (* Shutdown() only closes clsdCh: the sweeper stops, the cache is left as it is *)
+  | OShutdown => lift (shutdown (v_evict v) s)
   end.
 
 Definition init (max : nat) (idle busyto : Z) : prov :=
@@ -370,24 +408,26 @@ Definition init (max : nat) (idle busyto : Z) : prov :=
      p_cur := fun _ => cursor0; p_ncur := 0; p_acq := fun _ => 0%Z; p_act := [] |}.
 
 (* run a history; stops at the first panic (the server process is gone) *)
-Fixpoint run (s : prov) (ops : list op) : prov * list res * outcome unit :=
+Fixpoint run (v : variant) (s : prov) (ops : list op) : prov * list res * outcome unit :=
   match ops with
   | [] => (s, [], Ok tt)
   | o :: t =>
-    match step s o with
-    | Ok (s', r) => let '(sf, rs, oc) := run s' t in (sf, r :: rs, oc)
+    match step v s o with
+    | Ok (s', r) => let '(sf, rs, oc) := run v s' t in (sf, r :: rs, oc)
     | Err => (s, [], Err)
     | Panic => (s, [], Panic)
     | OutOfFuel => (s, [], OutOfFuel)
     end
   end.
 
-(* ---- the client discipline of the `_partial` theorems: an id that is already in flight (a request
-   with it has been looked up and not yet released) is only requested again while its cursor
-   sits in the cache marked busy -- that request is refused and changes nothing. What the
-   discipline excludes is a second request with the id while the first is between its failed
-   lookup and its insertion, holds an uncached cursor, or holds a cursor the sweeper has
-   orphaned (expired or evicted while busy). `fresh` (utils.NextSimpleId) is a new non-zero id. ---- *)
+(* ---- the client discipline (no theorem of props/C15.v assumes it any more: since the repairs the code is proved
+   for all histories; it classifies the histories the correspondence check runs, and K compares the
+   classification with the harness's own): an id that is already in flight (a request with it has been
+   looked up and not yet released) is only requested again while its cursor sits in the cache marked
+   busy -- that request is refused and changes nothing. What the discipline excludes is a second request
+   with the id while the first is between its failed lookup and its insertion, holds an uncached cursor,
+   or holds a cursor the sweeper has orphaned (expired or evicted while busy) -- the histories on which
+   `old_variant` fails. `fresh` (utils.NextSimpleId) is a new non-zero id. ---- *)
 Definition aid (s : prov) (a : astate) : option N :=
   match a with
   | AMiss id _ _ _ _ => Some id
@@ -414,11 +454,15 @@ Definition guard (s : prov) (o : op) : bool :=
   end.
 
 (* a history all of whose steps respect the discipline *)
-Fixpoint disciplined (s : prov) (ops : list op) : bool :=
+Fixpoint disciplined (v : variant) (s : prov) (ops : list op) : bool :=
   match ops with
   | [] => true
-  | o :: t => guard s o && match step s o with Ok (s', _) => disciplined s' t | _ => true end
+  | o :: t => guard s o && match step v s o with Ok (s', _) => disciplined v s' t | _ => true end
   end.
+
+(* the clock does not go backwards (time.Now carries a monotonic reading; expTime.Before(now) compares those) *)
+Definition clock_monotone (ops : list op) : bool :=
+  forallb (fun o => match o with OTick d => Z.leb 0 d | _ => true end) ops.
 
 (* ---- observations (the projection compared with the implementation) ---- *)
 Fixpoint insert_N (x : N) (l : list N) : list N :=
